@@ -282,7 +282,7 @@ def drive(ctx, desc, w, hist, pre, chan, j, ns, path, label, pnames):
             elif op == 'start' and model['started'] and desc['fault'] not in ('poll_exc', 'poll_malformed'):
                 # while live: one hit, so that deliveries are pending at the next shutdown
                 t0 = time.time()
-                while not handler._tp_config and time.time() - t0 < 2:
+                while not handler._tp_config and time.time() - t0 < 15:
                     time.sleep(0.001)
                 Forwarder({path}, handler).call(ns['f'])
         finally:
